@@ -148,8 +148,8 @@ CHECKS.update({
  'C18': dict(
    technique='bounded CBMC checks (harness-enforced contracts) of the extracted RequestImpl::add HTTP branch against a decode-exactly-once specification (sscanf as a stub with a literal-format precondition) and of RequestImpl::split (TCP branch) against a character-level reference tokenizer; the static file branch of MainLoop::executeGet extracted as a function fragment (rule R16) with ifstream::open as a stub; StringReplacer::get / match / checkMatchability (MQTT topic template) extracted with the parts vector and the values map as fixed-capacity models and checked as a build-then-match round trip',
    level='other',
-   text='BOUNDED, partial: for every HTTP request line up to 14 characters the URI is proved to have every %XY escape decoded exactly once, left to right, and the sscanf format is proved to be the literal "%1x%1x" (never request text); for every TCP command line up to 9 characters with terminated quotes the argument list equals the reference tokenizer (blanks outside quotes separate once, a token starting with a quote extends to the token ending with that quote, quotes removed, blanks inside kept). the static file branch of executeGet opens at most one file, only for a URI that starts with / and contains neither .. nor //, and the opened name is exactly HTML root + URI (+ index.html for a directory) with a known content type (URIs up to 8 characters). The HTTP branch of split, the /data branch of executeGet and MQTT topic matching (StringReplacer) are NOT decided in this revision. MQTT topics: for every matchable template of up to 5 parts made of constants and %circuit / %name / %field (each at most once, a constant after a field starting with a non-identifier character) and every triple of identifiers up to 2 characters, StringReplacer::get builds the template with the values filled in, cut before the first field without value, and StringReplacer::match maps that topic back to exactly the values it carries (the others stay empty) and reports a complete match for a complete topic. Request accumulation: an HTTP request arriving in chunks with CR LF line ends is complete exactly with the empty line and hands on its first line without the HTTP version suffix; a TCP command is complete with its line end, which is removed.',
-   note=TB + 'bounded string model (capacity 14 / 9, unwinding assertions); sscanf stub reads two hex digits; istringstream/getline(delim) and vector<string> are value models; command lines with an unterminated quote are outside the specification. Topic unit: template parsing (StringReplacer::parse / addPart / makeField, i.e. that parts are merged constants and name-consistent field indices) and the /get, /set, /list suffix handling of MqttHandler::notifyMqttTopic are not extracted; ignoreCase is off; strings up to 10 characters.',
+   text='BOUNDED, partial: for every HTTP request line up to 14 characters the URI is proved to have every %XY escape decoded exactly once, left to right, and the sscanf format is proved to be the literal "%1x%1x" (never request text); for every TCP command line up to 9 characters with terminated quotes the argument list equals the reference tokenizer (blanks outside quotes separate once, a token starting with a quote extends to the token ending with that quote, quotes removed, blanks inside kept). the static file branch of executeGet opens at most one file, only for a URI that starts with / and contains neither .. nor //, and the opened name is exactly HTML root + URI (+ index.html for a directory) with a known content type (URIs up to 8 characters). The HTTP branch of split, the /data branch of executeGet and MQTT topic matching (StringReplacer) are NOT decided in this revision. MQTT topics: for every matchable template of up to 5 parts made of constants and %circuit / %name / %field (each at most once, a constant after a field starting with a non-identifier character) and every triple of identifiers up to 2 characters, StringReplacer::get builds the template with the values filled in, cut before the first field without value, and StringReplacer::match maps that topic back to exactly the values it carries (the others stay empty) and reports a complete match for a complete topic; a parsed template has merged non-empty constants, letter-only field names and field indices consistent with the known names; a received topic is split at its last slash into the template part and get / set / list with optional ?args, anything else is ignored. Request accumulation: an HTTP request arriving in chunks with CR LF line ends is complete exactly with the empty line and hands on its first line without the HTTP version suffix; a TCP command is complete with its line end, which is removed.',
+   note=TB + 'bounded string model (capacity 14 / 9, unwinding assertions); sscanf stub reads two hex digits; istringstream/getline(delim) and vector<string> are value models; command lines with an unterminated quote are outside the specification. Topic unit: template parsing (StringReplacer::parse / addPart / makeField) is checked separately to establish the parts shape the round trip assumes (templates up to 7 characters quick, 9 thorough); the head of MqttHandler::notifyMqttTopic (split at the last slash into template part, get/set/list and ?args) is extracted as a fragment (R16); the wiring between them (which replacer is used, publishing side in MqttHandler) is not extracted; ignoreCase is off; strings up to 10 characters.',
    ref='DESIGN.md I.2 (C18)'),
 })
 
